@@ -13,7 +13,6 @@ import (
 
 	"github.com/pion/rtp"
 	"github.com/pion/sdp/v3"
-	"github.com/pion/webrtc/v4/internal/fmtp"
 )
 
 // RTPTransceiver represents a combination of an RTPSender and an RTPReceiver that share a common mid.
@@ -128,23 +127,9 @@ func (t *RTPTransceiver) setCodecPreferencesFromRemoteDescription(media *sdp.Med
 				// removed matched codec for next round
 				remoteCodecs = append(remoteCodecs[:remoteCodecIdx], remoteCodecs[remoteCodecIdx+1:]...)
 
-				needleFmtp := fmtp.Parse(
-					matchCodec.RTPCodecCapability.MimeType,
-					matchCodec.RTPCodecCapability.ClockRate,
-					matchCodec.RTPCodecCapability.Channels,
-					matchCodec.RTPCodecCapability.SDPFmtpLine,
-				)
-
-				for leftCodecIdx := len(leftCodecs) - 1; leftCodecIdx >= 0; leftCodecIdx-- {
-					leftCodec := leftCodecs[leftCodecIdx]
-					leftCodecFmtp := fmtp.Parse(
-						leftCodec.RTPCodecCapability.MimeType,
-						leftCodec.RTPCodecCapability.ClockRate,
-						leftCodec.RTPCodecCapability.Channels,
-						leftCodec.RTPCodecCapability.SDPFmtpLine,
-					)
-
-					if needleFmtp.Match(leftCodecFmtp) {
+				// payload types are unique in the media engine's lists
+				for leftCodecIdx := range leftCodecs {
+					if leftCodecs[leftCodecIdx].PayloadType == matchCodec.PayloadType {
 						leftCodecs = append(leftCodecs[:leftCodecIdx], leftCodecs[leftCodecIdx+1:]...)
 
 						break
